@@ -747,6 +747,15 @@ func c17Scenarios(tier string) []*world.Scenario {
 		}
 	}
 	out = append(out, c17BehindPending(tier)...)
+	// round 11: the limit as CONFIGURED, through the real core.Run (option defaulting included): small limits (the shipped
+	// configuration uses 200), limits around 1024, not configured
+	lims := []int{40, 64, 200, 1000, 1023, 1024, 1025, 5000, 0}
+	if tier != "thorough" {
+		lims = []int{64, 200, 1023, 1024, 5000}
+	}
+	for _, l := range lims {
+		out = append(out, ConfiguredLimit("C17", l, 0))
+	}
 	return out
 }
 
